@@ -106,7 +106,8 @@ class VroomMon(Monitor):
         if self.drawn is None:
             return
         nodes = C.reachable(self.part)
-        grew = [x for x in nodes if len(x.reward) != self.before.get(id(x), 0)]
+        before, self.before = self.before, None
+        grew = [x for x in nodes if len(x.reward) != before.get(id(x), 0)]
         self.obs["vroom_chains_checked"] += 1
         # credited set = a parent->child chain that starts at the drawn cell and goes down to the depth cap
         grew.sort(key=lambda x: x.get_depth())
@@ -131,14 +132,16 @@ class VroomMon(Monitor):
             if ul is not None and [id(x) for x in ul] != [id(x) for x in grew]:
                 self.v("C04:credited_cells_differ_from_the_sampled_chain")
         for x in grew:
-            if len(x.reward) != self.before.get(id(x), 0) + 1 or x.reward[-1] != r:
+            if len(x.reward) != before.get(id(x), 0) + 1 or x.reward[-1] != r:
                 self.v("C04:cell_credited_more_than_once_or_with_another_value", depth=x.get_depth())
         for x in (grew if ok else []):
             self.led.setdefault(id(x), []).append(r)
         if not ok:
             self.drawn = None
             return
-        for x in nodes:
+        # the credited chain is compared every round, the whole tree every 16th round and at the end
+        full = ctx.round % 16 == 0 or ctx.round >= ctx.case["T"]
+        for x in (nodes if full else grew):
             self.obs["cells_compared"] += 1
             if list(x.reward) != self.led.get(id(x), []):
                 self.v("C04:cell_rewards_differ_from_history", depth=x.get_depth(), have=len(x.reward),
